@@ -26,7 +26,8 @@ RULE = ("generated Modelica models (1-2 states, 0-2 algebraics, negated aliases,
         "trajectory is substituted into the theta = 1 collocation rows of the optimisation transcription model, "
         "delayed variables are compared with the linearly interpolated delayed expression, outputs are read "
         "back from the exported CSV, set_var/get_var round-trip through nominals and negated aliases, and an "
-        "unsolvable step must raise. non-trivial = >= 3 steps with an input change; distinct = model shapes")
+        "unsolvable step must raise. non-trivial = >= 3 steps with an input change; distinct = model shapes"
+        ' Also: outputs that are (negated) aliases or share an alias class, update(dt) spanning several import intervals, initial equations on scaled states, user extra variables with nominals, the unsolvable step with the nlpsol / fast_newton / newton rootfinders.')
 MODELLED = "simulation_problem.py residual assembly of initialize()/update(), delay buffer weights; simulation/io_mixin.py output recording"
 NOT_MODELLED = ("the rootfinder / IPOPT initialisation (their results are inputs to the residual check); pymoca (compiles the "
                 "generated model text); initial-state precedence rules (C14)")
